@@ -270,6 +270,16 @@ class _TCPPooling:
 
             message.opt.no_response = None
 
+        if message.code.is_request() and (
+            message.remote._transport is None or message.remote._transport.is_closing()
+        ):
+            # The remote is a connection that has ended (or is ending): what is
+            # written there goes nowhere, and nothing would ever tell the
+            # requester. This is hit when a remote taken from an earlier
+            # response is used again, as the block-wise layer does for
+            # follow-up requests.
+            raise error.NetworkError("Connection to %s is closed" % message.remote.hostinfo)
+
         message.remote._send_message(message)
 
     # used by the TcpConnection instances
